@@ -200,3 +200,32 @@ for r in (0, 1, 2):
        sym='%d rows x 3 samples over the 16 stored symbols' % r, oracle='one record per sample in input order, sequence i = column i, all of equal length', bounds='%d x 3' % r, timeout=2400, mem_gb=12)
 ob('C01.nk', ['C01'], 'merge_ska_array/conv', 'n_sample_kmers_2x3', functions=[MA + 'n_sample_kmers', MA + 'ksize', MA + 'nsamples'], inst='u64', needs_parts=['merge_ska_array/common'], caps=CAP23, models=['ndarray'],
    sym='2 x 3 table', oracle='per-sample count = number of non-gap cells in the column', bounds='2 x 3', timeout=900, mem_gb=8)
+
+# ------------------------------------------------------------------ C04.map
+RS = 'src/ska_ref.rs::RefSka::'
+for nr in (2, 3):
+    for pat in ('11', '10', '01', '00'):
+        ob('C04.map%s.p%s' % ('' if nr == 2 else '3', pat), ['C04', 'C15'], 'ska_ref/map', 'map%s_p%s' % ('' if nr == 2 else '3', pat), tier='quick' if (nr == 2 and pat in ('11', '10')) else 'thorough', functions=[RS + 'map', BE + 'RC_IUPAC'], inst='u64',
+           needs_parts=['ska_ref/common', 'merge_ska_dict/common', 'ska_dict/acc'], caps={'MCAP': 2, 'SCAP': 1, 'ACAP': 2 * nr}, models=['hashbrown', 'ndarray'],
+           sym='%d reference k-mers with symbolic identity (3-value universe) and strand flag; dictionary of 2 keys x 2 samples with symbolic cells; key presence concrete (%s)' % (nr, pat),
+           oracle='rows appended in reference order for present keys only; bases complemented iff reference k-mer is reverse strand; positions and names copied', bounds='%d reference k-mers, 2 keys, 2 samples' % nr, timeout=3600, mem_gb=20 if nr == 3 else 14)
+ob('C04.map.refuse', ['C04'], 'ska_ref/map', 'map_refuses_other_k', functions=[RS + 'map'], inst='u64', needs_parts=['ska_ref/common', 'merge_ska_dict/common', 'ska_dict/acc'], caps={'MCAP': 2, 'SCAP': 1, 'ACAP': 6}, models=['hashbrown', 'ndarray'],
+   sym='-', oracle='panic reachable, return not', bounds='-', timeout=900, mem_gb=8, expected_fail=['in function ska_ref::RefSka::<u64>::map'])
+# ------------------------------------------------------------------ C13.weed
+for nm in ('forward', 'reverse', 'forward_twice', 'reverse_twice'):
+    ob('C13.weed.' + nm, ['C13', 'C10'], 'merge_ska_array/weed', 'weed_%s_2x2' % nm, tier='thorough' if 'twice' in nm else 'quick', functions=[MA + 'weed', RS + 'kmer_iter'], inst='u64', needs_parts=['merge_ska_array/common', 'ska_ref/common'],
+       caps={'ACAP': 4, 'SCAP': 2, 'MCAP': 1}, models=['ndarray', 'hashbrown'], sym='2 x 2 table with two different k-mers of a 3-value universe; weed list of 0..=2 values (duplicates allowed)',
+       oracle='kept rows = rows whose k-mer is (not) in the weed set, in order, bases/counts/k-mers aligned; names unchanged; idempotent', bounds='2 k-mers, 2 samples, weed list <= 2', timeout=3600, mem_gb=16)
+
+# ------------------------------------------------------------------ generic_modes wrappers
+GM = 'src/generic_modes.rs::'
+ob('C06.thr', ['C06'], 'generic_modes/wrap', 'apply_filters_threshold_c4', functions=[GM + 'apply_filters', MA + 'filter'], inst='u64', needs_parts=['merge_ska_array/common'], caps={'ACAP': 4, 'SCAP': 1, 'MCAP': 1}, models=['ndarray'],
+   sym='min_freq: any f64 in [0,1]; one row of 4 symbols over {A,C,G,T,-}', oracle='row emitted iff present in >= ceil(4 x min_freq) samples (IEEE double arithmetic, the CLI\'s own)', bounds='4 samples', timeout=1800, mem_gb=12)
+for (c, f2, amb, tier) in [(2, 0, True, 'thorough'), (2, 0, False, 'thorough'), (2, 1, True, 'thorough'), (2, 1, False, 'thorough'), (2, 2, True, 'thorough'), (2, 2, False, 'quick'),
+                           (3, 0, False, 'thorough'), (3, 1, False, 'quick'), (3, 2, False, 'thorough'), (3, 1, True, 'thorough')]:
+    an = 'ambig' if amb else 'noambig'
+    ob('C14.wrap.c%d.f%d.%s' % (c, f2, an), ['C14'], 'generic_modes/wrap', 'dist_wrap_c%d_f%d_%s' % (c, f2, an), tier=tier,
+       functions=[GM + 'distance', GM + 'apply_filters', MA + 'filter', MA + 'update_counts'], inst='u64', needs_parts=['merge_ska_array/common'], caps={'ACAP': c, 'SCAP': c, 'MCAP': 1}, models=['ndarray', 'hashbrown', 'rayon (pool)'],
+       stubs=['MergeSkaArray::distance -> recorder that compares (constant, rows) with the expectation and ends the path (environment stub)', 'io_utils::set_ostream -> in-memory sink (environment stub)'],
+       sym='one row x %d samples over {A,C,G,T,-}; min_freq = %s; filter ambiguous = %s' % (c, f2 / 2.0, amb), oracle='recorded constant = constant sites among k-mers passing the frequency threshold; table handed on = k-mers passing it and not constant',
+       bounds='1 k-mer, %d samples' % c, timeout=3600, mem_gb=28 if amb else 16, mem_expect_gb=14 if amb else 5)
